@@ -127,6 +127,17 @@ def run(R):
                 fails.append({"program": name, "where": "ApplicationState::new", "why": "request-scoped constructor `%s` ran while the application state was built" % n})
             if defs[n]["life"] == "singleton" and k > 1:
                 fails.append({"program": name, "where": "ApplicationState::new", "why": "singleton constructor `%s` ran %d times" % (n, k)})
+        # transient instances are never shared: inside ApplicationState::new too, an instance built by a transient
+        # constructor is the input of at most one other constructor (a clone is logged as a clone, with a fresh id)
+        users = {}
+        for iid, v in init.ctors.items():
+            for x in v[1]:
+                if x in init.ctors and defs[init.ctors[x][0]]["life"] == "transient":
+                    users.setdefault(x, []).append(v[0])
+        for x, us in sorted(users.items()):
+            if len(us) > 1:
+                fails.append({"program": name, "where": "ApplicationState::new", "why": "the instance %s built by the transient constructor `%s` was injected into %s while the application state was built" % (x, init.ctors[x][0], us),
+                              "trace": res.get("init_trace"), "app_module_source": obs[name]["src"]})
         want = {}
         for b in lo["app"]["built"]:
             n = by_uid.get(b["ctor"])
